@@ -10,7 +10,7 @@
      parent1 c, anc n c        parent cell, n-fold ancestor of a cell multi-index *)
 From Coq Require Import List Arith Sorted.
 From Verif.lib Require Import FinSet.
-From Verif.C04 Require Import Model Proofs ProofsFun.
+From Verif.C04 Require Import Model Proofs ProofsFun ProofsMesh ProofsQuery ProofsClosure.
 Import ListNotations.
 
 (* Invariant of every reachable state, for every dimension, degree, knot multiplicities,
@@ -55,26 +55,27 @@ Theorem flat_lists_complete : forall st k x,
 Proof. exact flat_lists_complete_l. Qed.
 Print Assumptions flat_lists_complete.
 
-(* Activity characterisation, for every history of valid calls: a basis function f of level k
-   is active iff its support lies in Omega_k (active + deactivated cells of level k) but not
-   entirely in Omega_{k+1} (= the deactivated cells of level k), and deactivated iff it lies
-   entirely in the deactivated cells.
-   PARTIAL: under the hypothesis hier_ok that on every level of the dyadic hierarchy the table
-   suppfunc (_compute_supported_functions) is dual to meshsupp (mesh_support_idx_all), supports
-   are non-empty and inside the mesh. *)
-Theorem activity_characterisation_partial : forall axes disp ops,
+(* A knot-vector abstraction (p, multiplicities) is valid when no multiplicity exceeds p+1 and
+   there is at least one basis function (every open knot vector is).  For every valid
+   tensor-product mesh and EVERY level of its dyadic hierarchy the tables are consistent:
+   suppfunc (_compute_supported_functions) is dual to meshsupp (mesh_support_idx_all), every
+   support is non-empty and lies inside the mesh. *)
+Theorem tables_consistent : forall axes, Forall axis_ok axes ->
+  forall j, mesh_ok (Nat.iter j tp_refine (tpmesh_of axes)).
+Proof. exact hier_ok_valid. Qed.
+Print Assumptions tables_consistent.
+
+(* Activity characterisation, for every valid initial mesh and every history of valid calls: a
+   basis function f of level k is active iff its support lies in Omega_k (active + deactivated
+   cells of level k) but not entirely in Omega_{k+1} (= the deactivated cells of level k), and
+   deactivated iff it lies entirely in the deactivated cells. *)
+Theorem activity_characterisation : forall axes disp ops,
+  Forall axis_ok axes ->
   (forall d, disp = Some d -> 1 <= d) ->
-  hier_ok (tpmesh_of axes) ->
   ops_valid (hs_init axes disp) ops ->
   funcs_inv (run (hs_init axes disp) ops).
-Proof. exact activity_characterisation_l. Qed.
-Print Assumptions activity_characterisation_partial.
-(* NOT PROVED: activity_characterisation = the same statement with hier_ok replaced by
-     Forall (fun a => 1 <= ax_p a /\ every multiplicity of a <= ax_p a + 1 /\ 2 <= length (ax_mults a)) axes.
-   Missing: forall such axes and all j, mesh_ok (Nat.iter j tp_refine (tpmesh_of axes)) -- monotonicity of
-   the knot-to-mesh map, the interval form of {j : cell k in supp j}, its lifting to tensor products.
-   The tables of every level are compared with the implementation's in the correspondence run, and
-   Examples.ex_tables_consistent_test evaluates the hypothesis on levels 0..2 of an example (a test). *)
+Proof. exact activity_characterisation_full. Qed.
+Print Assumptions activity_characterisation.
 
 (* One refinement step preserves the characterisation (the induction step, no hierarchy-wide
    hypothesis: only the meshes present in the state are assumed consistent). *)
@@ -104,15 +105,115 @@ Theorem disparity_admissible_partial : forall st raw trunc st' m,
     (forall k c, In c (marks_get raw k) -> In c (mk m k)).
 Proof. exact hs_refine_spec. Qed.
 Print Assumptions disparity_admissible_partial.
+(* The algorithmic half of the admissibility argument: the marks actually refined by
+   HSpace.refine with finite disparity d are CLOSED -- every active cell in the neighbourhood
+   (support extension on level l - d, or its truncated variant) of the cells marked on level l
+   is itself marked on level l - d, for every level l, for default and truncated marking. *)
+Theorem marking_closure_closed : forall st raw trunc st' m d,
+  hs_disparity st = Some d -> 1 <= d -> hs_refine st raw trunc = Ok (st', m) ->
+  exists mx, max_marked_level raw = Some mx /\
+    let st1 := ensure_levels st (mx + 2) in
+    forall l c, l < numlevels st1 ->
+      In c (cell_neighborhood st1 d l (mk m l) trunc) -> In c (mk m (l - d)).
+Proof. exact hs_refine_closed. Qed.
+Print Assumptions marking_closure_closed.
+
+(* The geometric half that IS proved: on every reachable state of a valid hierarchy the cell-level
+   condition "around every active cell c of level j, all cells of cell_support_extension(j, [c], k)
+   are deactivated for every k with k + d < j" implies admissibility: no active function of level
+   k is non-zero on an active cell of level > k + d ... *)
+Theorem disparity_admissible_partial_cells : forall axes disp ops,
+  Forall axis_ok axes -> (forall d, disp = Some d -> 1 <= d) -> ops_valid (hs_init axes disp) ops ->
+  forall d, cell_condition axes disp ops d -> admissible axes disp ops d.
+Proof. exact admissible_from_cell_condition_l. Qed.
+Print Assumptions disparity_admissible_partial_cells.
+
+(* ... and admissibility is exactly "the incidence matrix has no entry between a function of level
+   k and a cell of level > k + d". *)
+Theorem admissible_iff_incidence : forall axes disp ops d,
+  admissible axes disp ops d <->
+  (let st := run (hs_init axes disp) ops in
+   forall k f j c, In f (AF st k) -> In c (A st j) -> j < numlevels st -> k + d < j ->
+     incidence_entry st (k, f) (j, c) = false).
+Proof. exact admissible_incidence_l. Qed.
+Print Assumptions admissible_iff_incidence.
+
 (* NOT PROVED: disparity_admissible
-     forall axes d ops, 1 <= d -> ops_valid (hs_init axes (Some d)) ops -> (all calls with trunc = false) ->
-     admissible_b (run (hs_init axes (Some d)) ops) d = true
-   i.e. no active function of level k is non-zero on an active cell of level > k + d.
-   Missing: the inductive argument of Bracco-Giannelli-Vazquez that the neighbourhood
-   closure keeps the mesh admissible.  Covered by exploration only: admissible_b is
-   evaluated on the implementation's state (geometric oracle) after every call of every
-   history of the correspondence run. *)
+     forall axes d ops, Forall axis_ok axes -> 1 <= d -> ops_valid (hs_init axes (Some d)) ops ->
+     (all calls with trunc = false) -> admissible axes (Some d) ops d.
+   Missing (and only this): that every reachable state satisfies cell_condition, by induction over the
+   calls using marking_closure_closed.  The induction step needs the nestedness of support
+   extensions across levels (cells of cell_support_extension(j,[c],k+1) are children of cells of
+   cell_support_extension(j,[c],k)), a statement about two-scale relations of B-splines with
+   arbitrary knot multiplicities that the integer model does not contain (it has no function
+   parents/children).  Not proved for d = 1 either: the same lemma is needed.  Covered by
+   exploration: the admissibility predicate is evaluated geometrically on the implementation's state
+   after every call of every history of the correspondence run (default marking). *)
 
 (* NOT PROVED (rational-matrix conjuncts, tie only): thb_partition_of_unity, thb_nonneg,
    hb_thb_inverse, hb_thb_same_space, hb_independent.  The model has no rational part;
    the harness checks them on the implementation within MAT_TOL (harness/props/c04.py). *)
+
+(* Incidence matrix (any state): the matrix has one row per active function and one column per
+   active cell, both in canonical order, and entry (i,j) is 1 iff the level of the function is
+   <= the level of the cell and the cell's ancestor on the function's level lies in the
+   function's support, i.e. iff function i is non-zero on active cell j. *)
+Theorem incidence_spec : forall st i j,
+  i < length (active_functions_flat st) -> j < length (active_cells_flat st) ->
+  let f := nth i (active_functions_flat st) (0, []) in
+  let c := nth j (active_cells_flat st) (0, []) in
+  (nth j (nth i (incidence st) []) false = true <->
+   fst f <= fst c /\ In (anc (fst c - fst f) (snd c)) (support1 (msh st (fst f)) (snd f))).
+Proof. exact incidence_spec_l. Qed.
+Print Assumptions incidence_spec.
+
+Theorem incidence_shape_spec : forall st,
+  length (incidence st) = length (active_functions_flat st) /\
+  Forall (fun r => length r = length (active_cells_flat st)) (incidence st).
+Proof. exact incidence_shape. Qed.
+Print Assumptions incidence_shape_spec.
+
+(* The cell/function support queries agree with this geometry on every reachable state of a
+   valid hierarchy: the incidence entry equals the answer of TPMesh.supported_in on the
+   ancestor cell; supported_in and support are dual; cell_support_extension and
+   function_support_extension are the sets their names say. *)
+Theorem cell_function_queries_agree : forall axes disp ops,
+  Forall axis_ok axes -> (forall d, disp = Some d -> 1 <= d) -> ops_valid (hs_init axes disp) ops ->
+  let st := run (hs_init axes disp) ops in
+  forall k f j c, k <= j -> j < numlevels st -> In f (AF st k) -> In c (A st j) ->
+  (incidence_entry st (k, f) (j, c) = true <-> In f (supported_in (msh st k) [anc (j - k) c])).
+Proof. exact incidence_queries_agree_l. Qed.
+Print Assumptions cell_function_queries_agree.
+
+Theorem support_queries_dual : forall axes disp ops,
+  Forall axis_ok axes -> (forall d, disp = Some d -> 1 <= d) -> ops_valid (hs_init axes disp) ops ->
+  let st := run (hs_init axes disp) ops in
+  forall k cs f, k < numlevels st ->
+  (forall c, In c cs -> In c (A st k) \/ In c (D st k)) ->
+  (In f (supported_in (msh st k) cs) <->
+   In f (tp_functions (msh st k)) /\ exists c, In c cs /\ In c (support (msh st k) [f])).
+Proof. exact queries_dual_l. Qed.
+Print Assumptions support_queries_dual.
+
+Theorem cell_support_extension_is_support_extension : forall axes disp ops,
+  Forall axis_ok axes -> (forall d, disp = Some d -> 1 <= d) -> ops_valid (hs_init axes disp) ops ->
+  let st := run (hs_init axes disp) ops in
+  forall l cells k c', k <= l -> l < numlevels st ->
+  (forall c, In c cells -> In c (A st l) \/ In c (D st l)) ->
+  (In c' (cell_support_extension st l cells k) <->
+   exists f, In f (tp_functions (msh st k)) /\
+             (exists c, In c cells /\ In (anc (l - k) c) (support1 (msh st k) f)) /\
+             In c' (support1 (msh st k) f)).
+Proof. exact cse_spec_l. Qed.
+Print Assumptions cell_support_extension_is_support_extension.
+
+Theorem function_support_extension_is_support_extension : forall axes disp ops,
+  Forall axis_ok axes -> (forall d, disp = Some d -> 1 <= d) -> ops_valid (hs_init axes disp) ops ->
+  let st := run (hs_init axes disp) ops in
+  forall l fs k f', k <= l -> l < numlevels st ->
+  (forall f, In f fs -> In f (tp_functions (msh st l))) ->
+  (In f' (function_support_extension st l fs k) <->
+   In f' (tp_functions (msh st k)) /\
+   exists f c, In f fs /\ In c (support1 (msh st l) f) /\ In (anc (l - k) c) (support1 (msh st k) f')).
+Proof. exact fse_spec_l. Qed.
+Print Assumptions function_support_extension_is_support_extension.
